@@ -490,11 +490,28 @@ func (ex *Exec) goInlineSafe(s *ast.GoStmt, lit *ast.FuncLit) bool {
 }
 
 func (ex *Exec) goStmt(st *State, s *ast.GoStmt) {
-	if lit, ok := ast.Unparen(s.Call.Fun).(*ast.FuncLit); ok && len(s.Call.Args) == 0 && ex.goInlineSafe(s, lit) {
+	// a new goroutine holds none of its parent's locks: the literal is
+	// inlined only when the parent holds no lock of this program (whose
+	// protected state the inlined critical sections would otherwise see in
+	// the wrong order); locks of other libraries the parent is declared to
+	// hold (`holds`) are dropped for the duration of the inlined body
+	parentLocked := false
+	for _, lh := range st.held {
+		if lh != nil && lh.ls != nil {
+			parentLocked = true
+		}
+	}
+	if lit, ok := ast.Unparen(s.Call.Fun).(*ast.FuncLit); ok && len(s.Call.Args) == 0 && !parentLocked && ex.goInlineSafe(s, lit) {
 		ex.runHooks(st, "go", "func", nil, nil, s.Pos())
 		ex.W.Trusted["goroutine literal in "+ex.FName+" verified inline at its spawn point (its captured locals are not assigned by it or after the go statement; effects on lock-protected state go through lock invariants)"] = true
 		fn := ex.expr(st, s.Call.Fun)
+		saved := st.held
+		st.held = map[string]*lockHeld{}
 		ex.apply(st, fn, nil, s.Call)
+		for k := range st.held {
+			ex.oblige(st, "lock-released", k+"@goroutine", s.Pos(), tFalse, nil)
+		}
+		st.held = saved
 		return
 	}
 	fn := ex.expr(st, s.Call.Fun)
